@@ -97,6 +97,15 @@ macro_rules! static_slice {
         s
     });
 }
+pub mod vshim {
+use vstd::prelude::*;
+verus! {
+// R17 shims (trusted, one line each): the UTF-8 bytes of a &str
+pub uninterp spec fn str_bytes_spec(s: &str) -> Seq<u8>;
+#[verifier::external_body] pub fn str_len(s: &str) -> (r: usize) ensures r == str_bytes_spec(s).len() { s.len() }
+#[verifier::external_body] pub fn str_bytes(s: &str) -> (r: &[u8]) ensures r@ == str_bytes_spec(s) { s.as_bytes() }
+}
+}
 pub use crate::error::Error;
 //@SPEC-MODULES@
 '''
@@ -122,7 +131,12 @@ def extract(repo):
 
     out = [PRELUDE]
     for m in CORE_MODULES:
-        out.append(_wrap(m, _pub_fields(ex, _clean(ex, rd(m + '.rs'))), m + '.rs'))
+        body = _clean(ex, rd(m + '.rs'))
+        if m == 'symmetricstate':
+            # R17: Verus has no specification connecting str::len / str::as_bytes; route them through two trusted shims
+            body = _sub(ex, 'R17', r'handshake_name\.len\(\)', 'crate::vshim::str_len(handshake_name)', body, expect=1)
+            body = _sub(ex, 'R17', r'handshake_name\.as_bytes\(\)', 'crate::vshim::str_bytes(handshake_name)', body, expect=2)
+        out.append(_wrap(m, _pub_fields(ex, body), m + '.rs'))
         ex.modules.append((m, m + '.rs'))
 
     # ---- params ----
@@ -211,6 +225,7 @@ impl CryptoResolver for DefaultResolver {
     ex.dropped = [
         'R2: #[cfg(test)] modules, inner doc comments/attributes, impl Display/Debug/Error, impl PartialEq for Keypair (subtle)',
         'R12: every FromStr::from_str, HandshakeChoice::parse_pattern_and_modifier, HandshakeChoice::is_fallback are #[verifier::external] (str APIs): NOT verified',
+        'R17: in SymmetricState::initialize, handshake_name.len()/.as_bytes() go through two trusted one-line shims (vshim::str_len/str_bytes)',
         'R5: supertraits CryptoRng+RngCore of trait Random dropped (foreign crate)',
         'features hfs, risky-raw-split, nightly, no_std are compiled out (cfg)',
         'resolvers/default.rs and resolvers/ring.rs are not part of the core unit (separate wrapper unit, R16)',
